@@ -286,6 +286,7 @@ func (e *env) play(hi int, h hist) []tracefmt.Rec {
 		}
 		for _, id := range ids {
 			e.rv.Expect("ka.consume", int64(id), K)
+			e.rv.Expect("ka.found", int64(id), K) // between the lookup and the removal (under the lock)
 			e.rv.Expect("ka.forward", int64(id), K)
 		}
 		start := make(chan struct{})
